@@ -1767,6 +1767,14 @@ impl DhtNetworkManager {
         peer_id: &PeerId,
         operation: DhtNetworkOperation,
     ) -> Result<DhtNetworkResult> {
+        // Once stop() has signalled shutdown the event handler that routes replies is
+        // gone: operations still in flight must not keep sending requests.
+        if self.shutdown.is_cancelled() {
+            return Err(P2PError::Network(NetworkError::ProtocolError(
+                "DHT network manager is stopped".into(),
+            )));
+        }
+
         // Sweep stale entries left by dropped futures before adding a new one
         self.sweep_expired_operations();
 
